@@ -1,5 +1,5 @@
 (* lookup_order for groups that contain ONE skypix dimension next to any set of non-skypix dimensions of the current
-   universe: generic reduction to the closed groups + the finite tables (decided in GroupProofsXS1..4.v). *)
+   universe: generic reduction to the closed groups + the finite table (decided in GroupProofsXS1.v). *)
 From Coq Require Import String List Bool Arith.
 From V Require Import Model.Universe Model.Group Model.GroupX Gen.Universes Proofs.GroupProofs Proofs.GroupProofsShipped.
 Import ListNotations.
@@ -20,40 +20,21 @@ Definition skypix_lookup_okb (u : universe) (ss : list string) (cl : list (list 
 Definition cl_current : list (list string) :=
   Eval vm_compute in closed_subsets u_current (all_subsets (nonskypix_dimension_names u_current)).
 
-(* the skypix dimensions of the current universe in four parts (one file each, to keep every file fast) *)
-Definition sky_part (k : nat) : list string :=
-  let l := skypix_names u_current in
-  match k with
-  | 0 => firstn 11 l
-  | 1 => firstn 11 (skipn 11 l)
-  | 2 => firstn 11 (skipn 22 l)
-  | _ => skipn 33 l
+(* the skypix dimensions at the two ends of every pixelization system (lowest and highest level: healpix1, healpix17,
+   htm1, htm24 today): the skypix elements whose neighbour in the universe order is not a skypix of the same system *)
+Definition sky_fam (e : elem) : option string := if is_skypix e then espatial e else None.
+Definition opt_same (a b : option string) : bool :=
+  match a, b with Some x, Some y => String.eqb x y | None, None => true | _, _ => false end.
+Fixpoint sky_ends (prev : option string) (l : universe) : list string :=
+  match l with
+  | [] => []
+  | e :: r =>
+    let fam := sky_fam e in
+    let next := match r with e2 :: _ => sky_fam e2 | [] => None end in
+    (if is_skypix e && (negb (opt_same prev fam) || negb (opt_same next fam)) then [ename e] else [])
+    ++ sky_ends fam r
   end.
-
-Lemma skipn_add {A} (a b : nat) : forall l : list A, skipn a (skipn b l) = skipn (b + a) l.
-Proof. induction b as [|b IH]; intro l; [reflexivity|]. destruct l as [|x r]; simpl; [destruct a; reflexivity|apply IH]. Qed.
-
-Lemma four_parts {A} (s : A) (l : list A) : In s l ->
-  In s (firstn 11 l) \/ In s (firstn 11 (skipn 11 l)) \/ In s (firstn 11 (skipn 22 l)) \/ In s (skipn 33 l).
-Proof.
-  intro H. rewrite <- (firstn_skipn 11 l) in H. apply in_app_or in H as [H|H]; [auto|]. right.
-  remember (skipn 11 l) as l1 eqn:E1.
-  rewrite <- (firstn_skipn 11 l1) in H. apply in_app_or in H as [H|H]; [auto|]. right.
-  assert (E2 : skipn 11 l1 = skipn 22 l) by (subst l1; rewrite skipn_add; reflexivity).
-  rewrite E2 in H. remember (skipn 22 l) as l2 eqn:E3.
-  rewrite <- (firstn_skipn 11 l2) in H. apply in_app_or in H as [H|H]; [auto|]. right.
-  assert (E4 : skipn 11 l2 = skipn 33 l) by (subst l2; rewrite skipn_add; reflexivity).
-  rewrite E4 in H. exact H.
-Qed.
-
-Lemma sky_parts s : In s (skypix_names u_current) -> exists k, k < 4 /\ In s (sky_part k).
-Proof.
-  intro H. destruct (four_parts s _ H) as [H1|[H1|[H1|H1]]].
-  - exists 0. split; [repeat constructor|exact H1].
-  - exists 1. split; [repeat constructor|exact H1].
-  - exists 2. split; [repeat constructor|exact H1].
-  - exists 3. split; [repeat constructor|exact H1].
-Qed.
+Definition sky_sample_current : list string := Eval vm_compute in sky_ends None u_current.
 
 Lemma mkgroup_cons_closure u s l C : wf_universe u = true -> In s (names_of u) -> closure u l = GOk C ->
   mkgroup u (s :: l) = mkgroup u (s :: C).
